@@ -9,10 +9,93 @@ from pyvc.sym import zint
 def t2_summaries():
     from contracts import bitbuffer
 
-    return dict(bitbuffer.t2_summaries())
+    d = dict(bitbuffer.t2_summaries())
+    d.update(leb_summaries())
+    return d
 
 
-def canonical_leb_summaries():
+def leb_summaries():
+    """LEB128._read/_write used through their contracts (proved of the real loops in contracts/leaf.py):
+      _write(stream, x)  appends enc(x) (canonical encoding), returns its length, ValueError iff x < 0 and unsigned;
+      _read(stream)      on input that starts with enc(v) returns v and consumes len(enc(v)); in general it is a
+                         deterministic function of the input from the current position: it either consumes n >= 1 available
+                         bytes and returns some v, or raises EOFError (no terminating byte before the end).
+    The summary keeps one (eof, v, n) triple per (input buffer, position): both readers of a relational run see the same one."""
+    import z3 as _z3
+
+    from dissect.cstruct.types.leb128 import LEB128
+    from pyvc.ctx import PyRaise
+    from pyvc.models import _norm
+    from pyvc.stream import SymStream
+    from pyvc.sym import SBytes, Seg, is_z3, strip
+    from specs import scalars
+
+    real_read = LEB128._read.__func__
+    real_write = LEB128._write.__func__
+
+    def leb_read(interp, cls, stream, context=None):
+        ctx = interp.ctx
+        if not isinstance(stream, SymStream):
+            return interp.call_nosummary(real_read, [cls, stream, context])
+        pos = stream.pos
+        item = stream.data.item_at(pos)
+        if isinstance(item, Seg) and item.tag is not None and item.tag[0] == "leb" and item.tag[2] == bool(cls.signed):
+            # the stream holds enc(v) here: contract of _read
+            stream.pos = _norm(zint(pos) + zint(item.n))
+            stream.log.append(("read", pos, item.n, item.n))
+            return item.tag[1]
+        items = stream.data.items
+        if not (len(items) == 1 and isinstance(items[0], Seg) and items[0].fn is not None):
+            return interp.call_nosummary(real_read, [cls, stream, context])
+        seg = items[0]
+        g = ctx.ghost.setdefault("leb", {"memo": {}, "src": {}})
+        key = (id(seg.fn), _z3.simplify(zint(seg.off) + zint(pos)).sexpr(), bool(cls.signed))
+        if key not in g["memo"]:
+            i = len(g["memo"])
+            g["memo"][key] = (_z3.Bool(f"leb_eof!{i}"), _z3.Int(f"leb_v!{i}"), _z3.Int(f"leb_n!{i}"))
+        eof, v, n = g["memo"][key]
+        total = stream.total()
+        if ctx.branch(eof):
+            stream.log.append(("read", pos, 1, 0))
+            raise PyRaise(EOFError, None, "EOF reached, while final LEB128 byte was not yet read")
+        ctx.assume(_z3.And(n >= 1, zint(pos) + n <= zint(total)))
+        if not cls.signed:
+            ctx.assume(v >= 0)
+        if ctx.ghost.get("assume_canonical_leb"):
+            # C02's premise (minimal encoding): the consumed bytes are enc(v); in particular the value 0 is the single byte 00
+            first = seg.at(_norm(zint(pos)))
+            ctx.assume_byte(first)
+            ctx.assume(_z3.Implies(v == 0, _z3.And(n == 1, first == 0)))
+            ctx.assume(_z3.Implies(n == 1, first == (v if not cls.signed else _z3.If(v >= 0, v, v + 128))))
+        g["src"][v.get_id()] = (seg, _norm(zint(pos)), n, bool(cls.signed))
+        stream.pos = _norm(zint(pos) + n)
+        stream.log.append(("read", pos, n, n))
+        return v
+
+    def leb_write(interp, cls, stream, data):
+        ctx = interp.ctx
+        x = strip(data)
+        if not is_z3(x) or not isinstance(stream, SymStream):
+            return interp.call_nosummary(real_write, [cls, stream, data])
+        if not cls.signed and interp.truth(ctx.lt(x, 0)):
+            raise PyRaise(ValueError, None, "Attempt to encode a negative integer using unsigned LEB128 encoding")
+        g = ctx.ghost.setdefault("leb", {"memo": {}, "src": {}})
+        src = g["src"].get(x.get_id())
+        if src is not None and ctx.ghost.get("assume_canonical_leb") and src[3] == bool(cls.signed):
+            # C02's premise: the bytes this value was read from were its canonical encoding, i.e. enc(x)
+            seg, pos, n, _ = src
+            stream.write(SBytes([seg.window(pos, n)]))
+            return n
+        enc = (scalars.enc_s if cls.signed else scalars.enc_u)(x)
+        n = _z3.Length(enc)
+        ctx.assume(n >= 1)
+        stream.write(SBytes([Seg(enc, n, tag=("leb", x, bool(cls.signed)))]))
+        return n
+
+    return {real_read: leb_read, real_write: leb_write}
+
+
+def canonical_leb_summaries_old():
     """C02 is stated for canonical inputs (minimal LEB128). This wrapper interprets the real LEB128._read and
     then *assumes* that the bytes it consumed were the minimal encoding (C02's explicit precondition)."""
     from dissect.cstruct.types.leb128 import LEB128
@@ -38,3 +121,9 @@ def canonical_leb_summaries():
         return v
 
     return {real: leb_read}
+
+
+def canonical_leb_summaries():
+    """C02 is stated for canonical inputs (minimal LEB128): under that premise the bytes a LEB128 value was read from are
+    enc(value); the write summary then emits exactly those bytes (flag read by leb_write)."""
+    return {}
